@@ -97,6 +97,7 @@ QUICK_ENTRIES = [
     "expr_rank1",             # expression with argument, coefficient, constant
     "expr_facet",             # expression on facets with geometry tables
     "c12_sumfact_hex",        # local: sum factorisation (other-options history: sum_factorization off first)
+    "c12_mixed_dim_geometry", # local: two meshes (triangle + interval) -> one geometry quantity on two cell names
     "c12_index_order",        # local: + the same form with its free indices created in another order
     "c12_coef_order",         # local: + the same form with its coefficients/arguments created in another order
     "demo_BiharmonicHHJ",     # a demo
@@ -171,11 +172,24 @@ def _local_entries():
             return [c * f * g * v * ufl.dx + ufl.inner(ufl.grad(f), ufl.grad(g)) * v * ufl.ds]
         return b
 
+    def mixed_dim_geometry():
+        # codim-1 coupling (as test_jit_forms.test_mixed_dim_form) with one geometry quantity on BOTH cell types
+        Vd = ufl.Mesh(basix.ufl.element("Lagrange", "triangle", 1, shape=(2,)))
+        Wd = ufl.Mesh(basix.ufl.element("Lagrange", "interval", 1, shape=(2,)))
+        V = ufl.FunctionSpace(Vd, basix.ufl.element("Lagrange", "triangle", 2))
+        W = ufl.FunctionSpace(Wd, basix.ufl.element("Lagrange", "interval", 1))
+        u, q = ufl.TrialFunction(V), ufl.TestFunction(W)
+        f, g = ufl.Coefficient(V), ufl.Coefficient(W)
+        ds = ufl.Measure("ds", domain=Vd)
+        n = ufl.FacetNormal(Vd)
+        return [ufl.CellVolume(Vd) * ufl.CellVolume(Wd) * ufl.inner(f * g * ufl.grad(u), n * q) * ds]
+
     _VARIANTS["c12_index_order"] = index_order(1)
     _VARIANTS["c12_coef_order"] = coef_order(1)
     return [
         corpus.Entry("c12_mixed3_coefs", mixed3, tags=("cell", "mixed")),
         corpus.Entry("c12_sumfact_hex", sumfact, tags=("cell", "sumfact"), options={"sum_factorization": True}),
+        corpus.Entry("c12_mixed_dim_geometry", mixed_dim_geometry, tags=("facet", "mixed-dim")),
         corpus.Entry("c12_index_order", index_order(0), tags=("cell", "variant")),
         corpus.Entry("c12_coef_order", coef_order(0), tags=("cell", "facet", "variant")),
     ]
@@ -267,7 +281,11 @@ def worker(job):
         out["sig"] = ffcx.naming.compute_signature(objs, "")
         doms = []
         for o in objs:
-            doms += list(o.ufl_domains()) if isinstance(o, ufl.Form) else list(ufl.domain.extract_domains(o[0]))
+            if isinstance(o, ufl.Form):
+                for itg in o.integrals():
+                    doms += [itg.ufl_domain(), *ufl.domain.extract_domains(itg.integrand())]
+            else:
+                doms += list(ufl.domain.extract_domains(o[0]))
         out["mesh_ids"] = sorted({d.ufl_id() for d in doms})
         if hist == "other-options-first":
             # the SAME objects, other options, first
@@ -357,6 +375,9 @@ def first_diff(a, b):
     return None
 
 
+_GEOM_DECL = re.compile(r"^\s*(static const \w+ |double |float )?\w+_(reference_cell_volume|reference_facet_volume|reference_normals"
+                        r"|facet_edge_vertices|cell_facet_jacobian|cell_ridge_jacobian|reference_cell_edge_vectors"
+                        r"|reference_facet_edge_vectors|facet_orientation|reference_facet_jacobian)\b[^=]*=")
 _FE_DECL_START = re.compile(r"^\s*(static const \w+ FE[#\d]|FE[#\d]\w* = np\.array\()")
 
 
@@ -414,12 +435,16 @@ def classify(ta, tb):
         na, nb = [fn(l) for l in cur_a], [fn(l) for l in cur_b]
         nd = _sym(na, nb)
         if nd < d:
-            kinds.append((name, _example(cur_a, cur_b, fn)))
+            ex = _example(cur_a, cur_b, fn)
+            secs = []
+            if name.startswith("section-") and len(cur_a) == len(cur_b):
+                secs = sorted({_where(cur_a, k) for k, (x, y) in enumerate(zip(cur_a, cur_b)) if x != y and fn(x) == fn(y)})
+            kinds.append((name, ex + (secs,)))
             cur_a, cur_b, d = na, nb, nd
     if d > 0:
         fd = first_diff(cur_a, cur_b)
         k = fd[0]
-        kinds.append((f"other[{_where(a, k)}|{_skeleton(a[k] if k < len(a) else '<eof>')}]", (k + 1, fd[1], fd[2])))
+        kinds.append((f"other[{_where(a, k)}|{_skeleton(a[k] if k < len(a) else '<eof>')}]", (k + 1, fd[1], fd[2], [])))
     else:
         ra, rb = cur_a, cur_b
         if any(n == "FE-table-numbering" for n, _ in kinds):
@@ -430,11 +455,11 @@ def classify(ta, tb):
             k = fd[0]
             line = fd[1]
             if re.search(r"tabulate_tensor|ufcx_integral|\bintegral_", line):
-                kinds.append(("kernel-order", (k + 1, fd[1], fd[2])))
-            elif re.search(r"reference_|facet_|cell_", line) and re.search(r"static const|np\.array", line):
-                kinds.append(("geometry-table-order", (k + 1, fd[1], fd[2])))
+                kinds.append(("kernel-order", (k + 1, fd[1], fd[2], [])))
+            elif _GEOM_DECL.search(line):
+                kinds.append(("geometry-table-order", (k + 1, fd[1], fd[2], [])))
             else:
-                kinds.append((f"line-order[{_skeleton(line)}]", (k + 1, fd[1], fd[2])))
+                kinds.append((f"line-order[{_skeleton(line)}]", (k + 1, fd[1], fd[2], [])))
     return kinds
 
 
@@ -617,20 +642,23 @@ def _compare(chk, names, results, outdir):
             if base == v:
                 continue
             if isinstance(base, tuple) or isinstance(v, tuple):
-                kinds = [("error-vs-success", (0, str(base)[:200], str(v)[:200]))]
+                kinds = [("error-vs-success", (0, str(base)[:200], str(v)[:200], []))]
             else:
                 kinds = classify(text(base), text(v))
-            for kind, (ln, la, lb) in kinds:
+            for kind, (ln, la, lb, secs) in kinds:
                 key = f"{dim}:{kind}"
                 occ = {"entry": entry, "lang": lang, "base": {"PYTHONHASHSEED": base_key[0], "history": base_key[1]},
                        "other": {"PYTHONHASHSEED": s, "history": label}, "line": ln, "base_line": la[:400], "other_line": lb[:400]}
                 if key not in found:
-                    found[key] = {"first": occ, "entries": set(), "count": 0, "histories": set()}
+                    found[key] = {"first": occ, "entries": set(), "count": 0, "histories": set(), "sections": set()}
+                found[key]["sections"].update(secs)
                 found[key]["entries"].add(f"{entry}/{lang}")
                 found[key]["histories"].add(label)
                 found[key]["count"] += 1
+    chk.programs = len(runs) - len(skipped)
     chk.notes["skipped_uncompilable"] = skipped
-    chk.notes["difference_kinds"] = {k: {"count": v["count"], "entries": sorted(v["entries"])} for k, v in sorted(found.items())}
+    chk.notes["difference_kinds"] = {k: {"count": v["count"], "entries": sorted(v["entries"]), "sections": sorted(v["sections"])}
+                                     for k, v in sorted(found.items())}
     for key, v in sorted(found.items()):
         f = v["first"]
         what = (f"generated text differs ({key}): {f['entry']} [{f['lang']}] "
@@ -638,6 +666,7 @@ def _compare(chk, names, results, outdir):
                 f"line {f['line']}: {f['base_line'][:90]!r} vs {f['other_line'][:90]!r}")
         chk.violation(key=key, what=what, payload={
             "key": key, "first": f, "affected": sorted(v["entries"]), "histories": sorted(v["histories"]), "occurrences": v["count"],
+            "sections": sorted(v["sections"]),
             "replay": (f"cd /verif && PYTHONPATH=/verif PYTHONHASHSEED=<seed> {PY} -m harness.props.c12 --show "
                        f"{f['entry']} {f['lang']} <history>   # prints the sha256 and writes the text to stdout with --text"),
         })
